@@ -5,7 +5,7 @@ cd "$(dirname "$0")/.."
 fail=0
 run() { # patch prop
   [[ -n "${FILTER:-}" && "$1" != *"$FILTER"* ]] && return
-  git -C /repo apply "$1" || { echo "SELFTEST cannot apply $1"; fail=1; return; }
+  git -C /repo apply "$PWD/$1" || { echo "SELFTEST cannot apply $1"; fail=1; return; }
   ./check $2 --tier quick > /tmp/selftest.log 2>&1; rc=$?
   git -C /repo checkout -- .
   n=$(grep -c '^VIOLATION' /tmp/selftest.log)
@@ -17,6 +17,9 @@ run regress/revert-fix-back-handled-equality.diff C07
 run regress/revert-fix-back11-row-map.diff C01
 run regress/revert-fix-back-shallow-history-direct.diff C08
 run regress/revert-fix-mp11-exit-point-active.diff C09
+run regress/revert-fix-back-sub-entry-original-event.diff C13
+run regress/revert-fix-back-entry-throw-blocked.diff C12
+run regress/revert-fix-mp11-entry-throw-blocked.diff C12
 for d in seeded/S*/; do
   id=$(basename $d)
   for p in $(python3 -c "import json;print(' '.join(json.load(open('$d/meta.json'))['selftest']))"); do run $d/patch.diff $p; done
